@@ -19,12 +19,34 @@ pub fn v_reach_insert(s: &mut BTreeSet<PageId>, p: PageId) -> (r: bool)
 { unimplemented!() }
 //@trusted v_payload_sink: `payloads.as_deref_mut()` + `payloads.push(v)` append to the caller's optional payload vector; modelled as a ghost log so that WHAT is collected can be specified
 pub uninterp spec fn sink_log(p: &Option<&mut Vec<u64>>) -> Seq<u64>;
+pub uninterp spec fn sink_wanted(p: &Option<&mut Vec<u64>>) -> bool;
 #[verifier::external_body]
-pub fn v_sink_wanted(p: &Option<&mut Vec<u64>>) -> (r: bool) { p.is_some() }
+pub fn v_sink_wanted(p: &Option<&mut Vec<u64>>) -> (r: bool) ensures r == sink_wanted(p) { p.is_some() }
 #[verifier::external_body]
 pub fn v_sink_push(p: &mut Option<&mut Vec<u64>>, v: u64)
-    ensures sink_log(final(p)) == sink_log(old(p)).push(v)
+    ensures sink_log(final(p)) == sink_log(old(p)).push(v), sink_wanted(final(p)) == sink_wanted(old(p))
 { if let Some(x) = p.as_deref_mut() { x.push(v); } }
+/// payload `v` has been handed to the caller's sink
+pub open spec fn log_has(log: Seq<u64>, v: u64) -> bool { exists|k: int| 0 <= k < log.len() && #[trigger] log[k] == v }
+pub proof fn lemma_log_push(log: Seq<u64>, x: u64, v: u64)
+    ensures log_has(log.push(x), v) == (log_has(log, v) || x == v)
+{
+    if log_has(log, v) { let k = choose|k: int| 0 <= k < log.len() && #[trigger] log[k] == v; assert(log.push(x)[k] == v); }
+    if x == v { assert(log.push(x)[log.len() as int] == v); }
+    if log_has(log.push(x), v) { let k = choose|k: int| 0 <= k < log.push(x).len() && #[trigger] log.push(x)[k] == v; if k < log.len() { assert(log[k] == v); } }
+}
+/// every payload of every newly marked leaf other than `cur` is in the sink
+pub open spec fn collected_except(pager: &Pager, old_s: Set<u64>, s: Set<u64>, log: Seq<u64>, cur: u64) -> bool {
+    forall|p: u64, i: int| p != cur && s.contains(p) && !old_s.contains(p) && pg_kind_ok(pg(pager, p)) && pg(pager, p)[4] == 0 && 0 <= i < pg_count(pg(pager, p))
+        ==> log_has(log, #[trigger] leaf_cells(pg(pager, p))[i].1)
+}
+pub proof fn lemma_collected_push(pager: &Pager, old_s: Set<u64>, s: Set<u64>, log: Seq<u64>, cur: u64, x: u64)
+    requires collected_except(pager, old_s, s, log, cur)
+    ensures collected_except(pager, old_s, s, log.push(x), cur)
+{
+    assert forall|p: u64, i: int| p != cur && s.contains(p) && !old_s.contains(p) && pg_kind_ok(pg(pager, p)) && pg(pager, p)[4] == 0 && 0 <= i < pg_count(pg(pager, p))
+        implies log_has(log.push(x), #[trigger] leaf_cells(pg(pager, p))[i].1) by { lemma_log_push(log, x, leaf_cells(pg(pager, p))[i].1); }
+}
 
 /// page `c` is referenced by index page `b`: right sibling, leftmost child or a cell's right child
 pub open spec fn page_refs(b: Seq<u8>, c: u64) -> bool {
@@ -130,6 +152,8 @@ impl BTree {
 //@|     self.root.0 != 0, reach(out).contains(self.root.0) || in_q(queue@, self.root.0),
 //@|     forall|k: int| 0 <= k < queue@.len() ==> #[trigger] queue@[k].0 != 0,
 //@|     closed(pager, reach(old(out)), reach(out), queue@),
+//@|     !reach(out).contains(0) || reach(old(out)).contains(0),
+//@|     sink_wanted(&payloads) ==> collected_except(pager, reach(old(out)), reach(out), sink_log(&payloads), 0),
 //@| ensures queue@.len() == 0,
 //@proof before 1 "if !out.insert(page_id) {" raw
 //@| let ghost s_head = reach(out);
@@ -143,6 +167,8 @@ impl BTree {
 //@proof before 1 "=Ok(())"
 //@| assert(queue@ =~= Seq::<PageId>::empty());
 //@| assert(!in_q(queue@, self.root.0));
+//@| // C28.btree.mark.payloads: when the caller asked for payloads, every payload of every newly marked leaf was handed over
+//@| assert(sink_wanted(&payloads) ==> collected_except(pager, reach(old(out)), reach(out), sink_log(&payloads), 0));
 //@proof before 1 "let mut buf = pager.read_page(page_id)?;" raw
 //@| let ghost cur = page_id.0;
 //@| proof { lemma_pop_new(pager, reach(old(out)), s_head, gq, self.root.0); }
@@ -170,6 +196,16 @@ impl BTree {
 //@|     forall|k: int| 0 <= k < queue@.len() ==> #[trigger] queue@[k].0 != 0,
 //@|     closed_except(pager, reach(old(out)), reach(out), queue@, cur), reach(out).contains(cur),
 //@|     from_le64(page.b().subrange(16, 24)) != 0 ==> in_q(queue@, from_le64(page.b().subrange(16, 24))),
+//@|     cur != 0, !reach(out).contains(0) || reach(old(out)).contains(0), sink_wanted(&payloads),
+//@|     collected_except(pager, reach(old(out)), reach(out), sink_log(&payloads), cur),
+//@|     forall|j: int| 0 <= j < it2.index@ ==> log_has(sink_log(&payloads), #[trigger] leaf_cells(page.b())[j].1),
+//@proof before 1 "payloads.push(v);" raw
+//@| let ghost lg = sink_log(&payloads);
+//@proof after 1 "payloads.push(v);"
+//@| lemma_collected_push(pager, reach(old(out)), reach(out), lg, cur, v);
+//@| assert forall|j: int| 0 <= j < it2.index@ + 1 implies log_has(sink_log(&payloads), #[trigger] leaf_cells(page.b())[j].1) by {
+//@|     lemma_log_push(lg, v, leaf_cells(page.b())[j].1);
+//@| }
 //@loop 3 iter it3
 //@| invariant tree_pages_ok(pager), page.b() == pg(pager, cur), pg_kind_ok(page.b()), page.b()[4] == 1, internal_wf(page.b()),
 //@|     reach(old(out)).subset_of(reach(out)), self.root.0 != 0, reach(out).contains(self.root.0) || in_q(queue@, self.root.0),
@@ -178,11 +214,17 @@ impl BTree {
 //@|     from_le64(page.b().subrange(16, 24)) != 0 ==> in_q(queue@, from_le64(page.b().subrange(16, 24))),
 //@|     in_q(queue@, from_le64(page.b().subrange(24, 32))),
 //@|     forall|j: int| 0 <= j < it3.index@ ==> in_q(queue@, #[trigger] ic_child(page.b(), pg_slot(page.b(), j))),
+//@|     cur != 0, !reach(out).contains(0) || reach(old(out)).contains(0),
+//@|     sink_wanted(&payloads) ==> collected_except(pager, reach(old(out)), reach(out), sink_log(&payloads), cur),
 //@proof after 1 "=match page.kind()? {" raw
 //@| proof {
 //@|     // every reference of the page just processed is marked or queued: the closure invariant holds again without exception
 //@|     assert forall|p: u64, c: u64| reach(out).contains(p) && !reach(old(out)).contains(p) && #[trigger] page_refs(pg(pager, p), c)
 //@|         implies reach(out).contains(c) || in_q(queue@, c) by { if p == cur { } }
+//@|     if sink_wanted(&payloads) {
+//@|         assert forall|p: u64, i: int| p != 0 && reach(out).contains(p) && !reach(old(out)).contains(p) && pg_kind_ok(pg(pager, p)) && pg(pager, p)[4] == 0 && 0 <= i < pg_count(pg(pager, p))
+//@|             implies log_has(sink_log(&payloads), #[trigger] leaf_cells(pg(pager, p))[i].1) by { if p == cur { } }
+//@|     }
 //@|     gq = queue@;
 //@| }
 //@end
